@@ -44,12 +44,19 @@ def marker_surface(tag, tracks, spt, total=None, with_file=True):
 @st.composite
 def case_st(draw):
     kind = draw(st.sampled_from(["one", "one", "inter", "inter", "mmb", "mmb", "one-trunc", "inter-trunc",
-                                 "inter-blank1", "mmb-blank"]))
+                                 "inter-blank1", "mmb-blank", "one-hdfs2"]))
     c = {"kind": kind, "pick": draw(st.integers(0, 10 ** 6))}
     if kind == "inter-blank1":
         # side 1 has no catalogue at all: the geometry then follows from side 0's catalogue alone
         dd = draw(st.booleans())
         c.update({"tracks": draw(st.sampled_from([35, 40, 80])), "spt": 18 if dd else 10, "ext": "ddd" if dd else "dsd"})
+        return c
+    if kind == "one-hdfs2":
+        # the one two-sided NON-interleaved layout the prober does recognise: both catalogues carry the HDFS flag and
+        # the HDFS "two sides" bit (sector count = 10 bits per side)
+        dd = draw(st.booleans())
+        c.update({"tracks": draw(st.sampled_from([35, 40] if dd else [35, 40, 80])), "spt": 18 if dd else 10,
+                  "ext": "sdd" if dd else "ssd"})
         return c
     if kind == "mmb-blank":
         c["slots"] = [[draw(st.sampled_from([0, 1, 2, 255, 510])), 0x0F]]
@@ -84,7 +91,8 @@ class C04(CheckBase):
             "'<side/slot Ttt sss #lba>') in .ssd/.sdd (1 side), .dsd/.ddd (interleaved, 2 sides) and .mmb (1-6 "
             "populated slots from {0-3, 14-16, 30-32, 47 (table-sector boundaries), 254-256, 495, 496, 509, 510, random}, status bytes 00/0F/F0/FF) containers, "
             "35/40/80 tracks x 10/18 sectors, optionally truncated, incl. surfaces that carry no catalogue at all (blank "
-            "side 1 of an 80-track .dsd, MMB slot marked present but holding junk); for each attached drive dump-sector on tracks "
+            "side 1 of an 80-track .dsd, MMB slot marked present but holding junk) and two-sided NON-interleaved .ssd/.sdd "
+            "whose catalogues carry the HDFS two-sides flag (the one such layout the prober recognises); for each attached drive dump-sector on tracks "
             "{0,1,mid,last} x all sectors, out-of-range track/sector, reads past a truncation point, type --binary "
             "of a file, cat on unformatted MMB slots.  Oracle: the documented offset formula evaluated on the file "
             "the generator wrote.  Non-trivial: a case that reads side 1, or a track >= 1 of an interleaved file, "
@@ -113,6 +121,8 @@ class C04(CheckBase):
         with runtool.Sandbox("c04") as sb:
             if case["kind"] == "twoside-nonint":
                 self._two_sided_nonint(v, dfs, sb, case)
+            elif case["kind"] == "one-hdfs2":
+                self._hdfs_two_sided(v, dfs, sb, case)
             elif case["kind"] in ("mmb", "mmb-blank"):
                 self._mmb(v, dfs, sb, case)
             else:
@@ -201,6 +211,27 @@ class C04(CheckBase):
         if inter:
             v.nontrivial = True
             v.classes.append("interleaved-track>=1+side1")
+
+    def _hdfs_two_sided(self, v, dfs, sb, case):
+        """Two-sided non-interleaved .ssd/.sdd whose catalogues say 'HDFS, two sides': side 1 immediately follows
+        side 0 (dfs.1); sector level only (the two-sided HDFS file system itself is not supported by dfs)."""
+        tracks, spt = case["tracks"], case["spt"]
+        sides = []
+        for tag in ("side0", "side1"):
+            img = bytearray(marker_surface(tag, tracks, spt, total=tracks * spt, with_file=False))
+            img[256 + 6] |= 0x0C
+            sides.append(bytes(img))
+        data = containers.noninterleaved(sides)
+        img = sb.file("img." + case["ext"], data)
+        v.nontrivial = True
+        v.classes.append("two-sided-noninterleaved-hdfs-" + case["ext"])
+        for si in (0, 1):
+            base = si * tracks * spt * 256
+
+            def side_bytes(lba, base=base):
+                return data[base + lba * 256:base + lba * 256 + 256]
+            self._read_checks(v, dfs, sb, img, [], 2 * si, tracks, spt, side_bytes, lambda lba: True,
+                              "%s (HDFS two-sided flag) side %d" % (case["ext"], si))
 
     def _two_sided_nonint(self, v, dfs, sb, case):
         """Probe for the known finding: side 1 of a two-sided .ssd/.sdd must be attached as drive 2."""
